@@ -158,6 +158,9 @@ R.field_types(
     _stream_id="Optional[int]",
 )
 
+# Reference model of the send half (C10): gW is the offset -> byte map of everything written.
+R.ghost_field("QuicStreamSender", "gW", "map[int,int]")
+
 R.invariant(
     "QuicStreamSender",
     [
@@ -166,6 +169,15 @@ R.invariant(
         "self._buffer_start >= 0",
         "len(self._buffer) == self._buffer_stop - self._buffer_start",
         "forall(lambda x: implies(self._pending.gview[x], self._buffer_start <= x < self._buffer_stop))",
+        # the buffer holds exactly the written bytes that are not yet acknowledged-and-trimmed
+        "forall(lambda x: implies(self._buffer_start <= x < self._buffer_stop, at(self._buffer, x - self._buffer_start) == self.gW[x]))",
+        # acknowledged-but-not-trimmed ranges lie strictly above the trim position, inside the buffer, and are not pending
+        "self._acked != self._pending",
+        "forall(lambda x: implies(self._acked.gview[x], self._buffer_start < x))",
+        "forall(lambda x: implies(self._acked.gview[x], x < self._buffer_stop))",
+        "forall(lambda x: implies(self._acked.gview[x], not self._pending.gview[x]))",
+        "self._buffer_fin is None or self._buffer_fin == self._buffer_stop",
+        "self.highest_offset <= self._buffer_stop",
     ],
 )
 
@@ -191,6 +203,12 @@ R.contract(
         "implies(result is None or len(old(RL(self._pending))) == 0, self.highest_offset == old(self.highest_offset) and forall(lambda x: self._pending.gview[x] == old(self._pending.gview)[x]))",
         "implies(result is not None and len(old(RL(self._pending))) == 0, old(self._pending_eof) and result.fin and len(result.data) == 0 and not self._pending_eof)",
         "self._buffer_stop == old(self._buffer_stop) and self._buffer_start == old(self._buffer_start)",
+        # every emitted frame carries exactly the written bytes for its offsets
+        "implies(result is not None, forall(lambda k: implies(0 <= k < len(result.data), at(result.data, k) == self.gW[result.offset + k])))",
+        # FIN is carried exactly by the frame that ends at the final offset
+        "implies(result is not None, result.fin == (self._buffer_fin is not None and result.offset + len(result.data) == self._buffer_fin))",
+        "implies(result is not None and result.fin, not self._pending_eof)",
+        "implies(result is None or not result.fin, self._pending_eof == old(self._pending_eof))",
     ],
     prop=["C06", "C10"],
 )
@@ -203,9 +221,12 @@ R.contract(
     raises={"AssertionError": "self._buffer_fin is not None or self._reset_error_code is not None"},
     modifies=[
         "self._pending._RangeSet__ranges", "self._pending.gview", "self._pending.gidx", "self._pending_eof",
-        "self.buffer_is_empty", "self._buffer", "self._buffer_stop", "self._buffer_fin",
+        "self.buffer_is_empty", "self._buffer", "self._buffer_stop", "self._buffer_fin", "self.gW",
     ],
+    ghost_exit={"self.gW": "amap(lambda x: at(data, x - old(self._buffer_stop)) if old(self._buffer_stop) <= x < old(self._buffer_stop) + len(data) else old(self.gW)[x])"},
     ensures=[
+        "forall(lambda x: self.gW[x] == (at(data, x - old(self._buffer_stop)) if old(self._buffer_stop) <= x < old(self._buffer_stop) + len(data) else old(self.gW)[x]))",
+        "implies(len(data) > 0 or end_stream, not self.buffer_is_empty)",
         "self._buffer_stop == old(self._buffer_stop) + len(data)",
         "forall(lambda x: self._pending.gview[x] == (old(self._pending.gview)[x] or old(self._buffer_stop) <= x < self._buffer_stop))",
         "implies(end_stream, self._buffer_fin == self._buffer_stop and self._pending_eof)",
@@ -271,4 +292,40 @@ R.contract(
         "len(RL(self._acked)) == 0 and forall(lambda x: not self._acked.gview[x])",
     ],
     prop=["C10", "C06"],
+)
+
+
+# C10 / C01: acknowledgement trims the buffer up to the first unacknowledged byte and completes the send half
+# exactly when all bytes and the FIN are acknowledged; a lost range (and a lost FIN) is re-offered.
+# Preconditions are the caller discipline of the recovery layer (each in-flight frame is reported once):
+# the range lies inside the buffer window and is neither pending nor already acknowledged.
+R.contract(
+    "QuicStreamSender.on_data_delivery",
+    requires=[
+        "0 <= start <= stop",
+        "implies(self._reset_error_code is None, forall(lambda x: implies(start <= x < stop, self._buffer_start <= x and x < self._buffer_stop and not self._pending.gview[x] and not self._acked.gview[x])))",
+    ],
+    raises={"AssertionError": "fin and (self._buffer_fin is None or stop != self._buffer_fin)"},
+    let={"live": "self._reset_error_code is None", "acked": "delivery == QuicDeliveryState.ACKED"},
+    modifies=[
+        "self._acked._RangeSet__ranges", "self._acked.gview", "self._acked.gidx", "self._pending._RangeSet__ranges", "self._pending.gview", "self._pending.gidx",
+        "self._acked_fin", "self._buffer", "self._buffer_start", "self.is_finished", "self.buffer_is_empty", "self._pending_eof",
+    ],
+    ensures=[
+        "self._buffer_stop == old(self._buffer_stop) and self._buffer_fin == old(self._buffer_fin) and self.highest_offset == old(self.highest_offset)",
+        "forall(lambda x: self.gW[x] == old(self.gW)[x])",
+        # after a reset nothing changes
+        "implies(not live, self._buffer_start == old(self._buffer_start) and self.is_finished == old(self.is_finished) and self._pending_eof == old(self._pending_eof) and self.buffer_is_empty == old(self.buffer_is_empty) and forall(lambda x: self._pending.gview[x] == old(self._pending.gview)[x]))",
+        # ACKED: the acknowledged set grows by exactly the range; the buffer is trimmed to the first unacknowledged byte
+        "implies(live and acked, self._buffer_start >= old(self._buffer_start) and forall(lambda x: (x < self._buffer_start or self._acked.gview[x]) == (x < old(self._buffer_start) or old(self._acked.gview)[x] or start <= x < stop)))",
+        "implies(live and acked, forall(lambda x: self._pending.gview[x] == old(self._pending.gview)[x]) and self._pending_eof == old(self._pending_eof) and self.buffer_is_empty == old(self.buffer_is_empty))",
+        "implies(live and acked, self._acked_fin == (old(self._acked_fin) or fin))",
+        "implies(live and acked, self.is_finished == (old(self.is_finished) or (self._buffer_fin is not None and self._buffer_start == self._buffer_fin and self._acked_fin)))",
+        # LOST: exactly the range becomes pending again, a lost FIN is offered again
+        "implies(live and not acked, forall(lambda x: self._pending.gview[x] == (old(self._pending.gview)[x] or start <= x < stop)))",
+        "implies(live and not acked, self._pending_eof == (old(self._pending_eof) or fin))",
+        "implies(live and not acked and (stop > start or fin), not self.buffer_is_empty)",
+        "implies(live and not acked, self._buffer_start == old(self._buffer_start) and self.is_finished == old(self.is_finished) and self._acked_fin == old(self._acked_fin) and forall(lambda x: self._acked.gview[x] == old(self._acked.gview)[x]))",
+    ],
+    prop=["C10", "C01"],
 )
